@@ -128,6 +128,9 @@ func runWireMsg(c *core.Ctx) {
 					bad = "the full Error() text is sent as a *prefix*: an unknowing receiver shows 'prefix: cause: cause'"
 				case selfErr && full:
 				case !full && len(deps) == 1 && deps[sh.ErrField.Name()]:
+					if isRedactableStringType(sh.ErrField.Type()) && !strippedFieldText(msg) {
+						bad = "the prefix field is a redactable string and Error() shows it with its markers stripped, but the wire message is not the StripMarkers() form: an unknowing receiver shows redaction markers in the text"
+					}
 				default:
 					bad = "the wire message must be the prefix field alone (as Prefix) or the full text (as FullMessage)"
 				}
@@ -136,6 +139,8 @@ func runWireMsg(c *core.Ctx) {
 					bad = "the type's text replaces its cause's text, so the message must be flagged FullMessage: as a prefix an unknowing receiver shows 'text: cause'"
 				} else if !selfErr && !(len(deps) == 1 && deps[sh.ErrField.Name()]) {
 					bad = "the wire message is not the type's own text"
+				} else if !selfErr && isRedactableStringType(sh.ErrField.Type()) && !strippedFieldText(msg) {
+					bad = "the text field is a redactable string and Error() shows it with its markers stripped, but the wire message is not the StripMarkers() form: an unknowing receiver shows redaction markers in the text"
 				}
 			default:
 				c.Note("R-WIRE-MSG: %s has Error() shape %s; not compared", cp.Name, sh.ErrShape)
@@ -149,6 +154,23 @@ func runWireMsg(c *core.Ctx) {
 		}
 	}
 	c.Min("registered encoders", n, 20)
+}
+
+// strippedFieldText: v is x.StripMarkers() (the plain text of a redactable string), possibly through phis.
+func strippedFieldText(v ssa.Value) bool {
+	switch x := v.(type) {
+	case *ssa.Call:
+		f := sx.Callee(x)
+		return f != nil && f.Name() == "StripMarkers"
+	case *ssa.Phi:
+		for _, e := range x.Edges {
+			if !strippedFieldText(e) {
+				return false
+			}
+		}
+		return len(x.Edges) > 0
+	}
+	return false
 }
 
 func describeMsg(e *origin.Engine, v ssa.Value) string {
